@@ -32,6 +32,12 @@ Definition pyslice {A} (a b : option Z) (s : nat) (l : list A) : list A :=
   flat_map (fun i => pick l (slice_lo n a + i * s))
            (seq 0 (slice_len (slice_lo n a) (slice_hi n b) s)).
 
+(* slices as data (the form emitted by harness/translate/strips.py) *)
+Definition slice1 := (option Z * option Z * nat)%type.
+Definition slice3 := (slice1 * slice1 * slice1)%type.
+Definition pyslice1 {A} (sl : slice1) (l : list A) : list A :=
+  let '(a, b, s) := sl in pyslice a b s l.
+
 (* ---- numpy integer-array indexing on axis 0: every index must lie in [-len, len) *)
 Definition np_take {A} (l : list A) (idx : list Z) : outcome (list A) :=
   omapM (fun z => match norm_index (length l) z with
